@@ -161,6 +161,9 @@ def judge_decode(ctx, case):
         if case['salt'] % 2:
             cfg[str(b)]['field_python_type'] = 'string'    # the documented example configuration spells the default out
             ctx.count('masked elements that also spell out field_python_type string')
+        if case['salt'] % 3 == 1:
+            cfg[str(b)]['field_processor_config'] = ''     # so does the documented example: the optional key, left empty
+            ctx.count('masked elements that also carry an empty field_processor_config')
     w = ref.PREFIX[cfg[str(b)]['field_type']]
     if w:
         n = rng.choice([11, 12, 13, 16, 16, 19, rng.randint(11, min(40, 10 ** w - 1))])
@@ -220,7 +223,12 @@ def judge_decode(ctx, case):
         live = copy.deepcopy(cfg)
         live[str(b)].pop('field_processor', None)
         ctx.call(iso.loads, wire, encoding=enc, iso_config=live, budget=400000)
-        live[str(b)]['field_processor'] = proc
+        if case['salt'] % 2:
+            live[str(b)]['field_processor'] = proc
+        else:
+            # not the entry edited, but the entry replaced by a new dict: the configuration object is the same one
+            live[str(b)] = dict(live[str(b)], field_processor=proc)
+            ctx.count('decodes after the masked element entry was replaced in an already used configuration object')
         cfg = live
         ctx.count('decodes after masking was switched on in an already used configuration object')
     if case['route'] == 'loads':
@@ -282,7 +290,9 @@ def require(m):
         reasons.append('mask(): lengths 10..40 not all driven')
     for need in ('masked elements declared as a number', 'card numbers with separators decoded', 'card numbers with letters decoded', 'card numbers with a control character decoded',
                  'mask calls on numbers holding a special character',
-                 'decodes after masking was switched on in an already used configuration object'):
+                 'decodes after masking was switched on in an already used configuration object',
+                 'decodes after the masked element entry was replaced in an already used configuration object',
+                 'masked elements that also carry an empty field_processor_config'):
         if not m['counters'].get(need):
             reasons.append('never driven: ' + need)
     if not m['counters'].get('fixed-width elements carrying a masking processor'):
